@@ -706,13 +706,18 @@ func zzC18CheckDocs(rng *rand.Rand, zone string, wk zzC18Week, verdicts []string
 		useJSON = useJSON && zzC18JSONExact(r[0]) && zzC18JSONExact(r[1])
 	}
 
-	wj, wy := &Weekly{}, &Weekly{}
-	var errJ error
+	// Each form is decoded into a fresh and into an already populated
+	// receiver: the result has to be the serialised schedule either way.
+	wj, wy := zzC18Receiver(false, zone), zzC18Receiver(false, zone)
+	wjp, wyp := zzC18Receiver(true, zone), zzC18Receiver(true, zone)
+	var errJ, errJP error
 	if useJSON {
 		errJ = json.Unmarshal([]byte(jdoc), wj)
+		errJP = json.Unmarshal([]byte(jdoc), wjp)
 	}
 
 	errY := yaml.Unmarshal([]byte(ydoc), wy)
+	errYP := yaml.Unmarshal([]byte(ydoc), wyp)
 	acc = [2]int{zzC18Bit(errJ == nil), zzC18Bit(errY == nil)}
 	if !useJSON {
 		acc[0] = 2
@@ -732,6 +737,10 @@ func zzC18CheckDocs(rng *rand.Rand, zone string, wk zzC18Week, verdicts []string
 		if e != nil && !zzC18Has(verdicts, "reject") {
 			return "rejected-" + form, doc + " :: " + e.Error(), acc
 		}
+
+		if ep := []error{errJP, errYP}[i]; (ep == nil) != (e == nil) {
+			return "verdict-depends-on-receiver-" + form, fmt.Sprint(doc, " :: fresh: ", e, ", populated: ", ep), acc
+		}
 	}
 
 	same := func(w *Weekly) bool {
@@ -750,11 +759,19 @@ func zzC18CheckDocs(rng *rand.Rand, zone string, wk zzC18Week, verdicts []string
 		if !same(wj) {
 			return "changed-on-read-json", fmt.Sprint(jdoc, " -> ", fmt.Sprint(zzC18Project(wj))), acc
 		}
+
+		if !same(wjp) {
+			return "changed-on-read-json-into-populated", fmt.Sprint(jdoc, " -> ", fmt.Sprint(zzC18Project(wjp))), acc
+		}
 	}
 
 	if errY == nil {
 		if !same(wy) {
 			return "changed-on-read-yaml", fmt.Sprint(ydoc, " -> ", fmt.Sprint(zzC18Project(wy))), acc
+		}
+
+		if !same(wyp) {
+			return "changed-on-read-yaml-into-populated", fmt.Sprint(ydoc, " -> ", fmt.Sprint(zzC18Project(wyp))), acc
 		}
 	}
 
@@ -768,27 +785,34 @@ func zzC18CheckDocs(rng *rand.Rand, zone string, wk zzC18Week, verdicts []string
 	}
 
 	for _, h := range hops {
-		var b []byte
-		var err error
-		back := &Weekly{}
-		if h.json {
-			b, err = json.Marshal(h.from)
-			if err == nil {
-				err = json.Unmarshal(b, back)
+		for _, pop := range []bool{false, true} {
+			var b []byte
+			var err error
+			back := zzC18Receiver(pop, zone)
+			name := h.name
+			if pop {
+				name += "-into-populated"
 			}
-		} else {
-			b, err = yaml.Marshal(h.from)
-			if err == nil {
-				err = yaml.Unmarshal(b, back)
+
+			if h.json {
+				b, err = json.Marshal(h.from)
+				if err == nil {
+					err = json.Unmarshal(b, back)
+				}
+			} else {
+				b, err = yaml.Marshal(h.from)
+				if err == nil {
+					err = yaml.Unmarshal(b, back)
+				}
 			}
-		}
 
-		if err != nil {
-			return "roundtrip-error-" + h.name, string(b) + " :: " + err.Error(), acc
-		}
+			if err != nil {
+				return "roundtrip-error-" + name, string(b) + " :: " + err.Error(), acc
+			}
 
-		if !same(back) {
-			return "roundtrip-changed-" + h.name, fmt.Sprint(string(b), " -> ", fmt.Sprint(zzC18Project(back))), acc
+			if !same(back) {
+				return "roundtrip-changed-" + name, fmt.Sprint(string(b), " -> ", fmt.Sprint(zzC18Project(back))), acc
+			}
 		}
 	}
 
@@ -951,32 +975,57 @@ func TestZZVerifC18Trace(t *testing.T) {
 		if err != nil {
 			w.put(map[string]any{
 				"k": "build", "zone": zone, "s": 0, "n": 0, "off": 0, "wd": 0, "tod": 0, "w": ws,
-				"got": 0, "via": via, "ser": []int{}, "detail": err.Error(), "wn": zzC18NoSub, "pres": 0,
+				"got": 0, "via": via, "ser": []int{}, "detail": err.Error(), "wn": zzC18NoSub, "pres": 0, "obj": i, "call": 0,
 			})
 
 			continue
 		}
 
+		// One to four calls on the same long-lived object; the later ones at
+		// instants related to the one before (the transitions bounding its
+		// zone period to the nanosecond, +-1 ns, a nearby instant), in any
+		// time order.
 		it := zzC18RandInstant(rng, loc, wk)
-		if it.Before(zzC18WinLo) || it.After(zzC18WinHi) {
-			continue
+		calls := 1 + rng.Intn(4)
+		for c := 0; c < calls; c++ {
+			if c > 0 {
+				start, end := it.In(loc).ZoneBounds()
+				switch rng.Intn(8) {
+				case 0, 1:
+					if !end.IsZero() {
+						it = end
+					}
+				case 2:
+					if !end.IsZero() {
+						it = end.Add(time.Duration(rng.Intn(3) - 1))
+					}
+				case 3:
+					if !start.IsZero() {
+						it = start.Add(time.Duration(rng.Intn(3) - 1))
+					}
+				case 4:
+					it = it.Add(time.Duration(rng.Int63n(int64(50*time.Hour))) - 25*time.Hour)
+				case 5:
+					it = it.Add(time.Duration(rng.Intn(3) - 1))
+				default:
+					it = zzC18RandInstant(rng, loc, wk)
+				}
+			}
+
+			if it.Before(zzC18WinLo) || it.After(zzC18WinHi) {
+				break
+			}
+
+			s, ns := it.Unix(), int64(it.Nanosecond())
+			off, wd, tod := zzC18WallOf(s, ns, loc)
+			pres := rng.Intn(len(zzC18PresNames))
+			got := sched.Contains(zzC18Present(pres, s, ns, loc, off))
+			w.put(map[string]any{
+				"k": "eval", "zone": zone, "s": s, "n": ns, "off": off, "wd": wd, "tod": tod, "w": ws,
+				"got": zzC18Bit(got), "via": via, "ser": []int{}, "detail": "", "offs": zzC18DayOffsets(it, loc),
+				"wn": zzC18NoSub, "pres": pres, "obj": i, "call": c,
+			})
 		}
-
-		s, ns := it.Unix(), int64(it.Nanosecond())
-		off, wd, tod := zzC18WallOf(s, ns, loc)
-		pres := rng.Intn(len(zzC18PresNames))
-		got := sched.Contains(zzC18Present(pres, s, ns, loc, off))
-
-		g := 0
-		if got {
-			g = 1
-		}
-
-		w.put(map[string]any{
-			"k": "eval", "zone": zone, "s": s, "n": ns, "off": off, "wd": wd, "tod": tod, "w": ws,
-			"got": g, "via": via, "ser": []int{}, "detail": "", "offs": zzC18DayOffsets(it, loc),
-			"wn": zzC18NoSub, "pres": pres,
-		})
 	}
 }
 
@@ -1091,6 +1140,6 @@ func zzC18TraceSer(w *zzWriter, rng *rand.Rand, zone string) {
 	what, detail, acc := zzC18CheckDocs(rng, zone, wk, []string{"accept", "reject"})
 	w.put(map[string]any{
 		"k": "ser", "zone": zone, "s": 0, "n": 0, "off": 0, "wd": 0, "tod": 0, "w": wm, "got": 0,
-		"via": what, "ser": []int{acc[0], acc[1], zzC18Bit(what == "")}, "detail": detail, "wn": wn, "pres": 0,
+		"via": what, "ser": []int{acc[0], acc[1], zzC18Bit(what == "")}, "detail": detail, "wn": wn, "pres": 0, "obj": -1, "call": 0,
 	})
 }
